@@ -60,7 +60,8 @@ def restore_gen(ck):
 def build(ck):
     ck.forbid_scan()
     fresh = regenerate(ck)
-    ok = ck.build_proofs(PROP_MODULES, driver="drv_c11")
+    # second T-tie module: the utf8_validate_string loop (lean/Usual/Gen/C11T.lean, Bridge/C11T.lean)
+    ok = ck.build_proofs(PROP_MODULES + c2lean.ttie(ck, vf, PID), driver="drv_c11")
     if not fresh:
         # the bridge lemmas were checked against a stale Gen file: they say nothing about the
         # current source, so they do not count as discharged
